@@ -91,11 +91,13 @@ def call_expr(macro, locale_ident, keypath, fields, values, counts):
     for f in fields:
         if f.startswith("comp_"):
             n = f[len("comp_"):]
+            # comp(children) = ⟦n⟧children⟦/n⟧ : deliberately not the literal tag syntax, so that a tag left as plain text
+            # cannot be mistaken for an applied component
             if view:
-                # comp(children) = <n>children</n>, same meaning as the &str DisplayComponent used for td_string!
-                args.append("<%s> = |c: leptos::children::ChildrenFn| leptos::view! { <%s>{c()}</%s> }" % (n, html_tag(n), html_tag(n)))
+                args.append("<%s> = |c: leptos::children::ChildrenFn| leptos::view! { %s {c()} %s }" % (n, rust_str(OPEN % n), rust_str(CLOSE % n)))
             else:
-                args.append("<%s> = %s" % (n, rust_str(n)))
+                args.append("<%s> = |f: &mut core::fmt::Formatter<'_>, c: &dyn Fn(&mut core::fmt::Formatter<'_>) -> core::fmt::Result| { f.write_str(%s)?; c(f)?; f.write_str(%s) }"
+                            % (n, rust_str(OPEN % n), rust_str(CLOSE % n)))
         else:
             n = f[len("var_"):]
             if f in counts:
@@ -106,6 +108,10 @@ def call_expr(macro, locale_ident, keypath, fields, values, counts):
     if view:
         return "render(td!(%s))" % ", ".join(args)
     return "%s!(%s)" % (macro, ", ".join(args))
+
+
+OPEN = "\u27e6%s\u27e7"
+CLOSE = "\u27e6/%s\u27e7"
 
 
 def html_tag(n):
@@ -158,9 +164,9 @@ def eval_term(t, env):
     if k == "app":
         f = t["f"]
         if f.startswith("comp_"):
-            n = env.get("comp_tag") or f[len("comp_"):]
+            n = f[len("comp_"):]
             inner = eval_term(t["a"][0]["v"], env)
-            return "<%s>%s</%s>" % (n, inner, n)
+            return (OPEN % n) + inner + (CLOSE % n)
         raise ReplayError("cannot evaluate %s concretely" % f)
     if k == "unreach":
         return "\x00UNREACHABLE"
